@@ -1,5 +1,6 @@
 import ZapVerif.Model.Slog
 import ZapVerif.Proofs.Slog
+import ZapVerif.Proofs.TransSlog
 /-! # C18 — the slog handler reproduces slog's attribute and group semantics
 
 `tree D R` is the slog.Handler contract for a derivation sequence `D` and a record `R` (Model/Slog.lean):
@@ -154,5 +155,412 @@ example : Live [] ⟨[], ⟨0, 0⟩⟩ := Or.inl rfl
 
 example : (runProg [root] [⟨0, .withGroup "a"⟩, ⟨0, .withGroup "b"⟩, ⟨1, .withGroup "c"⟩]).map (·.pending)
     = [[], ["a"], ["b"], ["a", "c"]] := by decide
+
+end ZapVerif.C18
+
+/-! ## the slog handler IS the source (table `Gen/TransSlog.lean`)
+
+`convertSlogLevel`, `hasContent`, `convertAttrToField`, `appendGroups`, `WithGroup`, `WithAttrs` and the head of `Handle` of
+exp/zapslog/handler.go, translated mechanically, are interpreted on the model's own attributes (`Slog.SAttr`, encoded as
+slog values: `TransSlog.attrV`) — every tree of groups, every number of LogValuer layers — and give the model's functions:
+`levelSpec` (which is the regenerated level table), `Slog.hasContent`, `Slog.convert` (as constructor values), the
+`ins` loop of `addAttrs`, `pending ++ [g]`.
+
+**Aliasing.**  GoMini slices are VALUES: `append(h.groups, group)` and the clone idiom `make` + `copy` + element
+assignment denote the same list, so the property `derive_isolated` (no two handlers share a backing array) is NOT
+expressible about the translated term.  Instead the translator REFUSES, for this table (`noFieldAppend`), every `append`
+whose first argument is a field of the receiver or of a struct copy of it, and every `append` that is not
+`x = append(x, …)`; `WithGroup_matches_source` then holds of the clone idiom only, and `derive_isolated` /
+`append_would_alias` above stay the statements about the heap-level model. -/
+namespace ZapVerif.C18
+set_option linter.unusedSimpArgs false
+open ZapVerif ZapVerif.GoMini ZapVerif.Slog ZapVerif.TransSlog ZapVerif.Gen.TransSlog
+
+/-- `convertSlogLevel`: Error from 8, Warn from 4, Info from 0, Debug below — for EVERY integer -/
+theorem convertSlogLevel_exec_matches_source (P : Par) (l : Int) (fl : Env) (fuel : Nat) :
+    (exec (X P) (fuel + 1) convertSlogLevel_body ⟨[("p0", .int l)], fl⟩).fin = some ([.int (levelSpec l)], fl) := by
+  rw [exec_succ]
+  have m8 := matchCase_true1 (X P) ⟨[("p0", .int l)], fl⟩ (.bin .ge (.loc "p0") (.lit (.int 8))) (decide (l ≥ 8)) (by simp)
+  have m4 := matchCase_true1 (X P) ⟨[("p0", .int l)], fl⟩ (.bin .ge (.loc "p0") (.lit (.int 4))) (decide (l ≥ 4)) (by simp)
+  have m0 := matchCase_true1 (X P) ⟨[("p0", .int l)], fl⟩ (.bin .ge (.loc "p0") (.lit (.int 0))) (decide (l ≥ 0)) (by simp)
+  by_cases h8 : l ≥ 8
+  · simp [convertSlogLevel_body, levelSpec, h8, m8]
+  · by_cases h4 : l ≥ 4
+    · simp [convertSlogLevel_body, levelSpec, h8, h4, m8, m4]
+    · by_cases h0 : l ≥ 0 <;> simp [convertSlogLevel_body, levelSpec, h8, h4, h0, m8, m4, m0]
+
+theorem convertSlogLevel_matches_source (P : Par) (l : Int) (fl : Env) (fuel : Nat) :
+    run (X P) (fuel + 1) "convertSlogLevel" [.int l] fl = .done [.int (levelSpec l)] fl :=
+  run_of_fin (X P) _ _ Gen.TransSlog.convertSlogLevel [.int l] _ _ _ rfl rfl
+    (convertSlogLevel_exec_matches_source P l fl fuel)
+
+/-- the thresholds ARE the regenerated table `Gen.slogLevels` the model's `convertLevel` looks up -/
+theorem levelSpec_is_convertLevel (l z : Int) (h : convertLevel l = some z) : levelSpec l = z := by
+  have hall : ∀ p ∈ Gen.slogLevels, levelSpec p.1 = p.2 := by decide +kernel
+  unfold convertLevel at h
+  have hmem : ∀ (t : List (Int × Int)), t.lookup l = some z → (l, z) ∈ t := by
+    intro t
+    induction t with
+    | nil => simp [List.lookup]
+    | cons p r ih =>
+      obtain ⟨a, b⟩ := p
+      simp only [List.lookup]
+      by_cases hab : l == a
+      · simp only [hab]; intro hz; have : a = l := by simpa using (beq_iff_eq.mp hab).symm
+        simp_all
+      · simp only [hab]; intro hz; exact List.mem_cons_of_mem _ (ih hz)
+  exact hall (l, z) (hmem _ h)
+
+/-- `appendGroups(fields)`: one `zap.Namespace` per pending group, in order, after the fields -/
+theorem appendGroups_exec_matches_source (P : Par) (fields : List Val) (gs : List Bytes) (fl : Env)
+    (hfl : Env.get "groups" fl = some (.list (gs.map Val.bytes))) (fuel : Nat) :
+    (exec (X P) (fuel + 1) appendGroups_body ⟨[("p0", .list fields)], fl⟩).fin =
+      some ([.list (fields ++ gs.map fun g => .list [TransSlog.nm "zap.Namespace", .bytes g])], fl) := by
+  rw [exec_succ]
+  have hloop : ∀ (ys : List Bytes) (acc : List Val) (i : Nat) (t : Option Val),
+      ∃ t', rangeRun (execS (X P) (exec (X P) fuel) appendGroups_loop0.rbody) .blank (.loc "l0") (ys.map Val.bytes) i
+          ⟨[("p0", .list acc)] ++ (match t with | some v => [("l0", v)] | none => []), fl⟩ =
+        .normal ⟨[("p0", .list (acc ++ ys.map fun g => .list [TransSlog.nm "zap.Namespace", .bytes g]))] ++
+          (match t' with | some v => [("l0", v)] | none => []), fl⟩ := by
+    intro ys
+    induction ys with
+    | nil => intro acc i t; exact ⟨t, by cases t <;> simp [rangeRun]⟩
+    | cons y r ih =>
+      intro acc i t
+      obtain ⟨t', h⟩ := ih (acc ++ [.list [TransSlog.nm "zap.Namespace", .bytes y]]) (i + 1) (some (.bytes y))
+      refine ⟨t', ?_⟩
+      cases t <;>
+        simpa [rangeRun, appendGroups_loop0, Stmt.rbody, State.assign1, Env.set, List.append_assoc] using h
+  obtain ⟨t', h⟩ := hloop gs fields 0 none
+  have hL : appendGroups_loop0 = .range .blank (.loc "l0") (.fld "groups") appendGroups_loop0.rbody := rfl
+  simp only [appendGroups_body, execS_seq]
+  rw [hL, execS_range]
+  simp only [evalE_fld, hfl, Res.out]
+  simp only [List.nil_append, List.cons_append] at h
+  rw [h]
+  cases t' <;> simp
+
+/-- `WithGroup("")` returns the receiver; otherwise the clone gets every field of the receiver and a FRESH slice
+    holding the receiver's groups followed by the new one -/
+theorem WithGroup_matches_source (P : Par) (g : Bytes) (core : Val) (name : Bytes) (ac : Bool) (asa cs : Int) (groups : List Val)
+    (self : Val) (ocore : Val) (oname : Bytes) (oac : Bool) (oasa ocs : Int) (ogroups : List Val) (oself : Val) (ev : List Val)
+    (hlen : (groups.length : Int) + 1 < 9223372036854775808) (fuel : Nat) :
+    run (X P) (fuel + 1) "WithGroup" [.bytes g] (hFld core name ac asa cs groups self ocore oname oac oasa ocs ogroups oself ev) =
+      if g.isEmpty then .done [self] (hFld core name ac asa cs groups self ocore oname oac oasa ocs ogroups oself ev)
+      else .done [oself] (hFld core name ac asa cs groups self core name ac asa cs (groups ++ [.bytes g]) oself ev) := by
+  cases g with
+  | nil =>
+    refine run_of_fin (X P) _ "WithGroup" Gen.TransSlog.WithGroup [.bytes []] _ _ _ rfl rfl ?_
+    show (exec (X P) (fuel + 1) WithGroup_body ⟨[("p0", .bytes [])], _⟩).fin = _
+    rw [exec_succ]
+    simp [WithGroup_body]
+  | cons x xs =>
+    refine run_of_fin (X P) _ "WithGroup" Gen.TransSlog.WithGroup [.bytes (x :: xs)] _ _ _ rfl rfl ?_
+    show (exec (X P) (fuel + 1) WithGroup_body ⟨[("p0", .bytes (x :: xs))], _⟩).fin = _
+    rw [exec_succ]
+    have hw : wrap .int ((groups.length : Int) + 1) = (groups.length : Int) + 1 := by rw [wrap_int_id] <;> omega
+    have hmk : ext P "make.strings" [.int ((groups.length : Int) + 1)] =
+        some [.list (List.replicate (groups.length + 1) (.bytes []))] := by
+      have := ext_makeStrings P (groups.length + 1); push_cast at this; exact this
+    have hcopy : groups.take (groups.length + 1) ++ (List.replicate (groups.length + 1) (Val.bytes [])).drop groups.length =
+        groups ++ [.bytes []] := by
+      rw [List.take_of_length_le (by omega)]
+      simp [List.drop_replicate]
+    have hset := ext_set P (groups ++ [.bytes []]) groups.length (.bytes (x :: xs)) (by simp)
+    have hsetv : (groups ++ [Val.bytes []]).set groups.length (.bytes (x :: xs)) = groups ++ [.bytes (x :: xs)] := by
+      simp [List.set_append_right]
+    have htake : groups.take (groups.length + 1) = groups := List.take_of_length_le (by omega)
+    simp [WithGroup_body, hw, hmk, hcopy, htake, hset, hsetv]
+
+/-! ### `hasContent`: recursion over groups, with the fuel the nesting depth needs -/
+
+/-- loop variables of `hasContent` left behind by earlier iterations: the member and the callee's answer -/
+def hcJunk : Option (Val × Val) → Env
+  | none => []
+  | some (m, r) => [("l0", m), ("l1", r)]
+
+/-- `attr.Value = attr.Value.Resolve()`: the attribute with every LogValuer layer stripped -/
+theorem hasContent_resolve_matches_source (P : Par) (a : SAttr) (fl : Env) (rec : Stmt → State → GoMini.Out) :
+    execS (X P) rec hasContent_body.hd ⟨[("p0", attrV a)], fl⟩ = .normal ⟨[("p0", attrV (resolved a))], fl⟩ := by
+  simp [hasContent_body, Stmt.hd]
+
+mutual
+theorem hasContent_exec_matches_source (P : Par) : ∀ (a : SAttr) (F : Nat) (fl : Env), dep a + 1 ≤ F →
+    (exec (X P) F hasContent_body ⟨[("p0", attrV a)], fl⟩).fin = some ([.bool (Slog.hasContent a)], fl)
+  | .leaf k lv l, F, fl, h => by
+    obtain ⟨F', rfl⟩ : ∃ F', F = F' + 1 := ⟨F - 1, by omega⟩
+    rw [exec_succ, show hasContent_body = .seq hasContent_body.hd hasContent_body.tl from rfl, execS_seq,
+      hasContent_resolve_matches_source]
+    have hr := kindOfTy_range l.ty
+    have hk : ¬ (kindOfTy l.ty = 8) := by omega
+    simp [hasContent_body, Stmt.tl, Slog.hasContent, resolved, isZeroAttr, lvOf, kind0, hk]
+  | .nilv k lv, F, fl, h => by
+    obtain ⟨F', rfl⟩ : ∃ F', F = F' + 1 := ⟨F - 1, by omega⟩
+    rw [exec_succ, show hasContent_body = .seq hasContent_body.hd hasContent_body.tl from rfl, execS_seq,
+      hasContent_resolve_matches_source]
+    by_cases hk : k = ""
+    · subst hk
+      simp [hasContent_body, Stmt.tl, Slog.hasContent, resolved, isZeroAttr, lvOf, kind0, sbytes]
+    · have hne : (sbytes k).isEmpty = false := by rw [sbytes_isEmpty]; simp [hk]
+      simp [hasContent_body, Stmt.tl, Slog.hasContent, resolved, isZeroAttr, lvOf, kind0, hne, hk]
+  | .group k lv ms, F, fl, h => by
+    have hd : deps ms + 2 ≤ F := by simpa [dep] using h
+    obtain ⟨F', rfl⟩ : ∃ F', F = F' + 1 := ⟨F - 1, by omega⟩
+    rw [exec_succ, show hasContent_body = .seq hasContent_body.hd hasContent_body.tl from rfl, execS_seq,
+      hasContent_resolve_matches_source]
+    obtain ⟨t', hloop⟩ := hasContent_loop_matches_source P ms F' fl (by omega) 0 (attrV (.group k 0 ms)) none
+    have hL : hasContent_loop0 = .range .blank (.loc "l0") (.call "Value.Group" [.index (.loc "p0") (.lit (.int 1))])
+        hasContent_loop0.rbody := rfl
+    have hgrp : evalE (X P) ⟨[("p0", attrV (.group k 0 ms))], fl⟩ (.call "Value.Group" [.index (.loc "p0") (.lit (.int 1))]) =
+        .ok (.list (attrsV ms)) := by simp
+    simp [hasContent_body, Stmt.tl, resolved, isZeroAttr, lvOf, kind0]
+    rw [hL, execS_range, hgrp]
+    simp only [Res.out, hcJunk, List.append_nil] at hloop ⊢
+    rw [hloop]
+    cases hany : anyContent ms <;> cases t' <;> simp [Slog.hasContent, hany, hcJunk]
+/-- the loop over the members: returns true at the first member with content -/
+theorem hasContent_loop_matches_source (P : Par) : ∀ (ms : List SAttr) (F : Nat) (fl : Env), deps ms + 1 ≤ F →
+    ∀ (i : Nat) (p0 : Val) (t : Option (Val × Val)),
+    ∃ t', rangeRun (execS (X P) (exec (X P) F) hasContent_loop0.rbody) .blank (.loc "l0") (attrsV ms) i
+        ⟨[("p0", p0)] ++ hcJunk t, fl⟩ =
+      if anyContent ms then .ret [.bool true] ⟨[("p0", p0)] ++ hcJunk t', fl⟩ else .normal ⟨[("p0", p0)] ++ hcJunk t', fl⟩
+  | [], F, fl, h, i, p0, t => ⟨t, by simp [attrsV, rangeRun, anyContent]⟩
+  | m :: r, F, fl, h, i, p0, t => by
+    have hm : dep m + 1 ≤ F := by simp only [deps] at h; omega
+    have hr : deps r + 1 ≤ F := by simp only [deps] at h; omega
+    have hcall : ∀ σ : State, retK σ [.loc "l1"] "hasContent"
+        (exec (X P) F hasContent_body ⟨[("p0", attrV m)], fl⟩) = _ :=
+      fun σ => retK_of_fin1 σ _ _ _ _ _ (hasContent_exec_matches_source P m F fl hm)
+    obtain ⟨t', hrest⟩ := hasContent_loop_matches_source P r F fl hr (i + 1) p0 (some (attrV m, .bool (Slog.hasContent m)))
+    cases hc : Slog.hasContent m with
+    | true =>
+      refine ⟨some (attrV m, .bool true), ?_⟩
+      cases t <;> simp [attrsV, rangeRun, hasContent_loop0, Stmt.rbody, hcJunk, hcall, hc, anyContent, State.assign1, Env.set]
+    | false =>
+      refine ⟨t', ?_⟩
+      rw [hc] at hrest
+      cases t <;> simp [attrsV, rangeRun, hasContent_loop0, Stmt.rbody, hcJunk, hcall, hc, anyContent, State.assign1, Env.set] <;>
+        simpa [hcJunk, hasContent_loop0, Stmt.rbody] using hrest
+end
+
+/-- `hasContent(attr)` is the model's `Slog.hasContent` on every attribute tree (fuel: the nesting depth + 1) -/
+theorem hasContent_matches_source (P : Par) (a : SAttr) (fl : Env) (fuel : Nat) :
+    run (X P) (fuel + dep a + 1) "hasContent" [attrV a] fl = .done [.bool (Slog.hasContent a)] fl :=
+  run_of_fin (X P) _ _ Gen.TransSlog.hasContent [attrV a] _ _ _ rfl rfl
+    (hasContent_exec_matches_source P a (fuel + dep a + 1) fl (by omega))
+
+/-! ### `convertAttrToField` -/
+
+/-- on a RESOLVED attribute (no LogValuer layer): the empty Attr and content-less groups are `zap.Skip()`, scalars go
+    to the constructor of their kind, groups to `zap.Inline` (empty key) or `zap.Object` over their members -/
+theorem convertAttrToField_resolved_matches_source (P : Par) (a : SAttr) (h0 : lvOf a = 0) (F : Nat) (hF : dep a + 2 ≤ F)
+    (fl : Env) :
+    (exec (X P) F convertAttrToField_body ⟨[("p0", attrV a)], fl⟩).fin = some ([convV a], fl) := by
+  obtain ⟨F', rfl⟩ : ∃ F', F = F' + 1 := ⟨F - 1, by omega⟩
+  rw [exec_succ]
+  cases a with
+  | leaf k lv l =>
+    have hlv : lv = 0 := h0
+    subst hlv
+    rcases kind_ctor l.ty with ⟨hk, hc⟩ | ⟨hk, hc⟩ | ⟨hk, hc⟩ | ⟨hk, hc⟩ | ⟨hk, hc⟩ | ⟨hk, hc⟩ | ⟨hk, hc⟩ | ⟨hk, hc⟩ <;>
+      simp [convertAttrToField_body, convV, isZeroAttr, lvOf, kind0, hk, hc, keyOf, (ext_ctor2 P _ _)]
+  | nilv k lv =>
+    have hlv : lv = 0 := h0
+    subst hlv
+    by_cases hk : k = ""
+    · subst hk
+      simp [convertAttrToField_body, convV, isZeroAttr, sbytes]
+    · have hne : (sbytes k).isEmpty = false := by rw [sbytes_isEmpty]; simp [hk]
+      simp [convertAttrToField_body, convV, isZeroAttr, lvOf, kind0, hne, hk, keyOf, (ext_ctor2 P _ _)]
+  | group k lv ms =>
+    have hlv : lv = 0 := h0
+    subst hlv
+    have hcall : ∀ σ : State, retK σ [.loc "l0"] "hasContent"
+        (exec (X P) F' hasContent_body ⟨[("p0", attrV (.group k 0 ms))], fl⟩) = _ :=
+      fun σ => retK_of_fin1 σ _ _ _ _ _ (hasContent_exec_matches_source P (.group k 0 ms) F' fl (by omega))
+    by_cases hk : k = ""
+    · subst hk
+      cases hany : anyContent ms <;>
+        simp [convertAttrToField_body, convV, isZeroAttr, lvOf, kind0, hcall, Slog.hasContent, hany, keyOf, sbytes,
+          (ext_ctor2 P _ _)]
+    · have hne : ¬ (sbytes k = []) := fun h => hk ((sbytes_eq_nil k).mp h)
+      cases hany : anyContent ms <;>
+        simp [convertAttrToField_body, convV, isZeroAttr, lvOf, kind0, hcall, Slog.hasContent, hany, keyOf, hk, hne,
+          (ext_ctor2 P _ _)]
+
+/-- `convertAttrToField(attr)` on EVERY attribute: a LogValuer is resolved (all layers) and converted -/
+theorem convertAttrToField_exec_matches_source (P : Par) (a : SAttr) (F : Nat) (hF : dep a + 3 ≤ F) (fl : Env) :
+    (exec (X P) F convertAttrToField_body ⟨[("p0", attrV a)], fl⟩).fin = some ([convV a], fl) := by
+  by_cases h0 : lvOf a = 0
+  · exact convertAttrToField_resolved_matches_source P a h0 F (by omega) fl
+  · obtain ⟨F', rfl⟩ : ∃ F', F = F' + 1 := ⟨F - 1, by omega⟩
+    have hpos : (0 : Int) < (lvOf a : Int) := by omega
+    have hz : isZeroAttr a = false := by
+      cases a <;> simp_all [isZeroAttr, lvOf]
+    have hcall : ∀ σ : State, retK σ [.loc "l1"] "convertAttrToField"
+        (exec (X P) F' convertAttrToField_body ⟨[("p0", attrV (resolved a))], fl⟩) = _ :=
+      fun σ => retK_of_fin1 σ _ _ _ _ _
+        (convertAttrToField_resolved_matches_source P (resolved a) (lvOf_resolved a) F' (by rw [dep_resolved]; omega) fl)
+    have hposN : 0 < lvOf a := by omega
+    rw [exec_succ]
+    unfold convertAttrToField_body
+    simp [hz, hpos, hposN, hcall, convV_resolved]
+
+theorem convertAttrToField_matches_source (P : Par) (a : SAttr) (fl : Env) (fuel : Nat) :
+    run (X P) (fuel + dep a + 3) "convertAttrToField" [attrV a] fl = .done [convV a] fl :=
+  run_of_fin (X P) _ _ Gen.TransSlog.convertAttrToField [attrV a] _ _ _ rfl rfl
+    (convertAttrToField_exec_matches_source P a (fuel + dep a + 3) (by omega) fl)
+
+/-! ### `WithAttrs` -/
+
+/-- loop variables of `WithAttrs` left behind: the attribute and its field -/
+def waJunk : Option (Val × Val) → Env
+  | none => []
+  | some (a, f) => [("l2", a), ("l3", f)]
+
+/-- the loop of `WithAttrs`: every attribute is converted; the pending groups are opened once, right before the first
+    field that is not `zap.Skip()` -/
+theorem WithAttrs_loop_matches_source (P : Par) (gs : List Bytes) (fl : Env)
+    (hfl : Env.get "groups" fl = some (.list (gs.map Val.bytes))) (p0 : Val) :
+    ∀ (as : List SAttr) (F : Nat), deps as + 3 ≤ F → ∀ (acc : List Val × Bool) (i : Nat) (t : Option (Val × Val)),
+    ∃ t', rangeRun (execS (X P) (exec (X P) F) WithAttrs_loop0.rbody) .blank (.loc "l2") (attrsV as) i
+        ⟨[("p0", p0), ("l0", .list acc.1), ("l1", .bool acc.2)] ++ waJunk t, fl⟩ =
+      .normal ⟨[("p0", p0), ("l0", .list (as.foldl (attrStep gs) acc).1), ("l1", .bool (as.foldl (attrStep gs) acc).2)] ++
+        waJunk t', fl⟩
+  | [], F, hF, acc, i, t => ⟨t, by simp [attrsV, rangeRun]⟩
+  | a :: r, F, hF, acc, i, t => by
+    have ha : dep a + 3 ≤ F := by simp only [deps] at hF; omega
+    have hr : deps r + 3 ≤ F := by simp only [deps] at hF; omega
+    obtain ⟨F', rfl⟩ : ∃ F', F = F' + 1 := ⟨F - 1, by omega⟩
+    have hconv : ∀ σ : State, retK σ [.loc "l3"] "convertAttrToField"
+        (exec (X P) (F' + 1) convertAttrToField_body ⟨[("p0", attrV a)], fl⟩) = _ :=
+      fun σ => retK_of_fin1 σ _ _ _ _ _ (convertAttrToField_exec_matches_source P a (F' + 1) ha fl)
+    have hgrp : ∀ (σ : State) (fs : List Val), retK σ [.loc "l0"] "appendGroups"
+        (exec (X P) (F' + 1) appendGroups_body ⟨[("p0", .list fs)], fl⟩) = _ :=
+      fun σ fs => retK_of_fin1 σ _ _ _ _ _ (appendGroups_exec_matches_source P fs gs fl hfl F')
+    obtain ⟨t', hrest⟩ := WithAttrs_loop_matches_source P gs fl hfl p0 r (F' + 1) hr (attrStep gs acc a) (i + 1)
+      (some (attrV a, convV a))
+    refine ⟨t', ?_⟩
+    obtain ⟨fs, added⟩ := acc
+    have hne := convV_ne_skip a
+    cases gs with
+    | nil =>
+      have hst : attrStep [] (fs, added) a = (fs ++ [convV a], added) := by simp [attrStep]
+      rw [hst] at hrest
+      cases t <;> cases added <;>
+        simp [attrsV, rangeRun, WithAttrs_loop0, Stmt.rbody, waJunk, hconv, hfl, hne, State.assign1, Env.set, attrStep] <;>
+        simpa [waJunk, WithAttrs_loop0, Stmt.rbody, attrStep] using hrest
+    | cons g gr =>
+      have hpos : (0 : Int) < ((gr.length : Int) + 1) := by omega
+      cases hsk : isSkip (convert a) <;> cases added <;>
+        (simp only [attrStep, hsk] at hrest
+         cases t <;>
+          simp [attrsV, rangeRun, WithAttrs_loop0, Stmt.rbody, waJunk, hconv, hgrp, hfl, hne, hsk, hpos, State.assign1, Env.set,
+            attrStep, List.append_assoc] <;>
+          simpa [waJunk, WithAttrs_loop0, Stmt.rbody, attrStep, List.append_assoc] using hrest)
+
+/-- `WithAttrs(attrs)`: the clone gets every field of the receiver; its core is `core.With(fields)` for the fields of
+    `withAttrsSpec`; its pending groups are cleared exactly when they were opened -/
+theorem WithAttrs_matches_source (P : Par) (as : List SAttr) (core : Val) (name : Bytes) (ac : Bool) (asa cs : Int)
+    (gs : List Bytes) (self : Val) (ocore : Val) (oname : Bytes) (oac : Bool) (oasa ocs : Int) (ogroups : List Val)
+    (oself : Val) (ev : List Val) (fuel : Nat) :
+    run (X P) (fuel + deps as + 4) "WithAttrs" [.list (attrsV as)]
+        (hFld core name ac asa cs (gs.map Val.bytes) self ocore oname oac oasa ocs ogroups oself ev) =
+      .done [oself] (hFld core name ac asa cs (gs.map Val.bytes) self
+        (P.coreWith core (.list (withAttrsSpec gs as).1)) name ac asa cs
+        (if (withAttrsSpec gs as).2 then [] else gs.map Val.bytes) oself ev) := by
+  refine run_of_fin (X P) _ _ Gen.TransSlog.WithAttrs [.list (attrsV as)] _ _ _ rfl rfl ?_
+  show (exec (X P) (fuel + deps as + 4) WithAttrs_body ⟨[("p0", .list (attrsV as))], _⟩).fin = _
+  rw [show fuel + deps as + 4 = (fuel + deps as + 3) + 1 by omega, exec_succ]
+  obtain ⟨t', hloop⟩ := WithAttrs_loop_matches_source P gs
+    (hFld core name ac asa cs (gs.map Val.bytes) self ocore oname oac oasa ocs ogroups oself ev) rfl (.list (attrsV as))
+    as (fuel + deps as + 3) (by omega) ([], false) 0 none
+  have hL : WithAttrs_loop0 = .range .blank (.loc "l2") (.loc "p0") WithAttrs_loop0.rbody := rfl
+  have hb : WithAttrs_body = .seq WithAttrs_body.hd (.seq WithAttrs_body.tl.hd (.seq WithAttrs_loop0 WithAttrs_body.tl.tl.tl)) := rfl
+  have h0 : ∀ (rec : Stmt → State → GoMini.Out) (fl : Env),
+      execS (X P) rec WithAttrs_body.hd ⟨[("p0", .list (attrsV as))], fl⟩ =
+        .normal ⟨[("p0", .list (attrsV as)), ("l0", .list [])], fl⟩ := by
+    intro rec fl; simp [WithAttrs_body, Stmt.hd]
+  have h1 : ∀ (rec : Stmt → State → GoMini.Out) (fl : Env),
+      execS (X P) rec WithAttrs_body.tl.hd ⟨[("p0", .list (attrsV as)), ("l0", .list [])], fl⟩ =
+        .normal ⟨[("p0", .list (attrsV as)), ("l0", .list []), ("l1", .bool false)], fl⟩ := by
+    intro rec fl; simp [WithAttrs_body, Stmt.hd, Stmt.tl]
+  rw [hb]
+  simp only [execS_seq]
+  rw [h0]; simp only [Out.andThen_normal, execS_seq]
+  rw [h1]; simp only [Out.andThen_normal, execS_seq]
+  rw [hL, execS_range]
+  simp only [evalE_loc, Env.get, if_true, Res.out]
+  simp only [waJunk, List.append_nil] at hloop
+  rw [hloop]
+  simp only [Out.andThen_normal]
+  rw [show withAttrsSpec gs as = List.foldl (attrStep gs) ([], false) as from rfl]
+  generalize List.foldl (attrStep gs) ([], false) as = R
+  obtain ⟨fs, added⟩ := R
+  cases t' <;> cases added <;> simp [Stmt.tl, WithAttrs_body]
+
+/-- the fields and the flag are the model's `addAttrs` (`Slog.ins` over `converts`): Proofs/TransSlog.lean -/
+theorem WithAttrs_is_addAttrs (pending : List String) (as : List SAttr) :
+    ∃ items : List (String ⊕ SAttr),
+      (withAttrsSpec (pending.map sbytes) as).1 = items.map itemV ∧
+      (addAttrs ⟨[], pending⟩ (converts as)).ctx = items.map itemF ∧
+      (addAttrs ⟨[], pending⟩ (converts as)).pending = (if (withAttrsSpec (pending.map sbytes) as).2 then [] else pending) :=
+  withAttrsSpec_is_ins pending as
+
+/-! ### `Handle`, up to the attribute iteration -/
+
+/-- a `slog.Record` as the translated function reads it -/
+def recV (level : Int) (time : Val) (msg : Bytes) (pc : Int) (attrs : Val) : Val :=
+  .list [.int level, time, .bytes msg, .int pc, attrs]
+
+def entOf (level : Int) (time : Val) (msg name : Bytes) : Val := .list [.int (levelSpec level), time, .bytes msg, .bytes name]
+
+/-- the ONLY gate is `core.Check` on the mapped level: a nil answer returns nil and NOTHING is written -/
+theorem Handle_rejected_matches_source (P : Par) (ctx : Val) (level : Int) (time : Val) (msg : Bytes) (pc : Int) (attrs : Val)
+    (core : Val) (name : Bytes) (ac : Bool) (asa cs : Int) (groups : List Val) (self : Val) (ocore : Val) (oname : Bytes)
+    (oac : Bool) (oasa ocs : Int) (ogroups : List Val) (oself : Val) (ev : List Val)
+    (hck : P.check core (entOf level time msg name) = .list []) (fuel : Nat) :
+    run (X P) (fuel + 2) "Handle" [ctx, recV level time msg pc attrs]
+        (hFld core name ac asa cs groups self ocore oname oac oasa ocs ogroups oself ev) =
+      .done [.list []] (hFld core name ac asa cs groups self ocore oname oac oasa ocs ogroups oself ev) := by
+  refine run_of_fin (X P) _ _ Gen.TransSlog.Handle [ctx, recV level time msg pc attrs] _ _ _ rfl rfl ?_
+  show (exec (X P) (fuel + 2) Handle_body ⟨[("p0", ctx), ("p1", recV level time msg pc attrs)], _⟩).fin = _
+  have hlvl : ∀ σ : State, retK σ [.loc "l0"] "convertSlogLevel"
+      (exec (X P) (fuel + 1) convertSlogLevel_body ⟨[("p0", .int level)],
+        hFld core name ac asa cs groups self ocore oname oac oasa ocs ogroups oself ev⟩) = _ :=
+    fun σ => retK_of_fin1 σ _ _ _ _ _ (convertSlogLevel_exec_matches_source P level _ fuel)
+  rw [exec_succ]
+  unfold entOf at hck
+  simp [Handle_body, recV, hlvl, hck, State.assign1, Env.set]
+
+/-- an accepted entry: the caller is taken from the record's PC (only with `addCaller`, a PC and a frame), the stack is
+    taken from `addStackAt` up, and the entry is handed to the attribute iteration and `ce.Write` exactly once -/
+theorem Handle_accepted_matches_source (P : Par) (ctx : Val) (level : Int) (time : Val) (msg : Bytes) (pc : Int) (attrs : Val)
+    (core : Val) (name : Bytes) (ac : Bool) (asa cs : Int) (groups : List Val) (self : Val) (ocore : Val) (oname : Bytes)
+    (oac : Bool) (oasa ocs : Int) (ogroups : List Val) (oself : Val) (ev : List Val)
+    (c0 s0 r0 : Val) (hck : P.check core (entOf level time msg name) = .list [c0, s0, r0])
+    (fpc : Int) (ffile fline ffn : Val) (more : Bool)
+    (hfr : P.frame (.int pc) = (.list [.int fpc, ffile, fline, ffn], more))
+    (hcs : -9223372036854775808 ≤ 3 + cs ∧ 3 + cs < 9223372036854775808) (fuel : Nat) :
+    run (X P) (fuel + 2) "Handle" [ctx, recV level time msg pc attrs]
+        (hFld core name ac asa cs groups self ocore oname oac oasa ocs ogroups oself ev) =
+      .done [.list []] (hFld core name ac asa cs groups self ocore oname oac oasa ocs ogroups oself
+        (ev ++ [.list [TransSlog.nm "Handler.convertAndWrite",
+          .list [if ac && decide (pc ≠ 0) && decide (fpc ≠ 0) then .list [.bool true, .int fpc, ffile, fline, ffn] else c0,
+                 if level ≥ asa then .bytes (P.take (3 + cs)) else s0, r0],
+          recV level time msg pc attrs]])) := by
+  refine run_of_fin (X P) _ _ Gen.TransSlog.Handle [ctx, recV level time msg pc attrs] _ _ _ rfl rfl ?_
+  show (exec (X P) (fuel + 2) Handle_body ⟨[("p0", ctx), ("p1", recV level time msg pc attrs)], _⟩).fin = _
+  have hlvl : ∀ σ : State, retK σ [.loc "l0"] "convertSlogLevel"
+      (exec (X P) (fuel + 1) convertSlogLevel_body ⟨[("p0", .int level)],
+        hFld core name ac asa cs groups self ocore oname oac oasa ocs ogroups oself ev⟩) = _ :=
+    fun σ => retK_of_fin1 σ _ _ _ _ _ (convertSlogLevel_exec_matches_source P level _ fuel)
+  have hw : wrap .int (3 + cs) = 3 + cs := wrap_int_id _ hcs.1 hcs.2
+  have hnm : TransSlog.nm "Handler.convertAndWrite" = .bytes [72, 97, 110, 100, 108, 101, 114, 46, 99, 111, 110, 118, 101, 114, 116, 65, 110, 100, 87, 114, 105, 116, 101] :=
+    congrArg Val.bytes (by decide +kernel)
+  rw [exec_succ]
+  unfold entOf at hck
+  cases ac <;> by_cases hpc : pc = 0 <;> by_cases hf : fpc = 0 <;> by_cases hl : level ≥ asa <;>
+    simp [Handle_body, recV, hlvl, hck, hfr, hw, hnm, hpc, hf, hl, State.assign1, Env.set]
 
 end ZapVerif.C18
